@@ -163,6 +163,10 @@ def genOps2 : List (String × R String) := [
   ("g:tr_tweak", do
       let pub ← bytes; let s ← scripts
       pure (ansG toString (Gen.calculate_tweak Crypto.sha256 Gen.OP_CODES pub (pyScripts s)))),
+  ("g:tr_addr", do
+      let pub ← bytes; let s ← scripts
+      pure (ansG (fun (q : Bytes × Bool) => s!"{hex q.1} {if q.2 then 1 else 0}")
+        (Gen.pubkey_to_taproot_hex Crypto.sha256 Gen.OP_CODES pub (pyScripts s)))),
   ("g:full_pubkey", do let k ← bytes; pure (ansG hex (Gen.schnorr_full_pubkey_gen k))),
   ("g:negate", do let k ← bytes; pure (ansG hex (Gen.negate_privkey k))),
   ("g:tweak_pub", do
